@@ -84,6 +84,11 @@ def run(corrupt=None):
         cfgs.append(dict(base, n=3, wiring="run", outl=True, dist="real", alpha=0.3))
         cfgs.append(dict(base, n=3, wiring="lib", outl=False, dist="real", alpha=2.5))
         c01.run_configs(ck, cfgs, table, which=which, prop="C04", corrupt=corrupt, sigfn=sigfn_for(which))
+    # sweep composition on one tree object (data-point scan, prune-regraft, relabel, prune-regraft), real density
+    cfgs = [dict(base, n=3, wiring="run", outl=False, dist="real", alpha=0.6)]
+    if thorough:
+        cfgs += [dict(base, n=3, wiring="run", outl=True, dist="real", alpha=1.7), dict(base, n=4, wiring="run", outl=False, dist="real", alpha=0.6)]
+    c01.run_configs(ck, cfgs, table, which="sweep", prop="C04", sigfn=lambda cfg: "move=sweep|outl=%d" % cfg["outl"])
     # subtree particle Gibbs
     cfgs = []
     for n in (1, 2):
